@@ -45,7 +45,10 @@ def jobs_for(ck, items):
   for it in items:
     c = it["case"]
     h = zlib.crc32(json.dumps(c, sort_keys=True).encode())
-    jobs.append({"case": c, "derived": it["derived"], "seed": (h + 7919 * ck.seed) % (1 << 31)})
+    # the iteration cap is a documented argument: a fifth of the Newton cases stop at 6 or 12 iterations, i.e.
+    # possibly in the middle of convergence - what is reported must still bound the residual of what is returned
+    ni = [6, 12][h % 2] if (c["method"] == "newton" and (h // 2) % 5 == 0) else 100
+    jobs.append({"case": c, "derived": it["derived"], "seed": (h + 7919 * ck.seed) % (1 << 31), "num_iters": ni})
   jobs.sort(key=lambda j: (static_key(j["case"]), json.dumps(j["case"], sort_keys=True)))
   return jobs
 
